@@ -28,6 +28,8 @@ import (
 	"fmt"
 	"math/rand"
 	"os"
+	"runtime"
+	"sync/atomic"
 	"time"
 
 	"gopkg.in/src-d/hercules.v10/verifapi"
@@ -213,6 +215,20 @@ func (w *sworld) checkpoint() Sx {
 	return T("chk", out...)
 }
 
+// Erase and CloneDeep iterate over the whole tree and allocate while they do: on a tree whose links form
+// a cycle they would eat all memory, so the iteration is tried first
+func terminates(tr *verifapi.RBTree) bool {
+	bound := int(tr.VerifHeader().Count) + 1
+	j := 0
+	for it := tr.Min(); !it.Limit(); it = it.Next() {
+		j++
+		if j > bound {
+			return false
+		}
+	}
+	return true
+}
+
 func itSx(it verifapi.Iterator) Sx { return U64(uint64(it.VerifNode())) }
 
 func (w *sworld) exec(o op) Sx {
@@ -370,6 +386,9 @@ func (w *sworld) exec(o op) Sx {
 		w.regs[r] = x
 		return T("it", itSx(it))
 	case "erase":
+		if !terminates(w.trees[t]) {
+			return T("cycle")
+		}
 		w.trees[t].Erase()
 		for r := range w.regs {
 			x := &w.regs[r]
@@ -388,6 +407,9 @@ func (w *sworld) exec(o op) Sx {
 				w.regs[r].valid = false
 			}
 		}
+		if !terminates(w.trees[s]) {
+			return T("cycle")
+		}
 		w.trees[d] = w.trees[s].CloneDeep(w.alloc)
 		start, n := side.off, 0
 		for it := w.trees[d].Min(); !it.Limit() && n <= w.trees[s].Len(); it = it.Next() {
@@ -401,12 +423,13 @@ func (w *sworld) exec(o op) Sx {
 	panic("unknown scale op " + o.kind)
 }
 
-func runScale(ntrees int, ops []op) (obs []Sx, w *sworld) {
+func runScale(ntrees int, ops []op, cur *atomic.Int32) (obs []Sx, w *sworld) {
 	w = &sworld{alloc: verifapi.NewAllocator(), side: &sideBuf{}}
 	for i := 0; i < ntrees; i++ {
 		w.trees = append(w.trees, verifapi.NewRBTree(w.alloc))
 	}
-	for _, o := range ops {
+	for i, o := range ops {
+		cur.Store(int32(i))
 		var res Sx
 		_, p := Catch(func() { res = w.exec(o) })
 		if p {
@@ -414,6 +437,9 @@ func runScale(ntrees int, ops []op) (obs []Sx, w *sworld) {
 			return
 		}
 		obs = append(obs, T("o", res))
+		if res.Tag() == "cycle" {
+			return
+		}
 	}
 	return
 }
@@ -426,6 +452,19 @@ type scaleJob struct {
 	done   chan struct{}
 	obs    []Sx
 	w      *sworld
+	start  atomic.Int64 // unix nanoseconds when the case began to run, 0 before
+	cur    atomic.Int32 // the operation that is running
+}
+
+// how long a case may run: 10 s + 3 s per 10^5 inserted elements
+func (j *scaleJob) limit() time.Duration {
+	n := 0
+	for _, o := range j.ops {
+		if o.kind == "fill" && len(o.a) > 2 {
+			n += o.a[2]
+		}
+	}
+	return 10*time.Second + time.Duration(3*n/100000)*time.Second
 }
 
 const scaleParallel = 6
@@ -438,7 +477,8 @@ func emitScale(c *Config, kind string, ntrees int, ops []op) {
 	scaleJobs = append(scaleJobs, j)
 	go func() {
 		scaleSem <- struct{}{}
-		j.obs, j.w = runScale(ntrees, ops)
+		j.start.Store(time.Now().UnixNano())
+		j.obs, j.w = runScale(ntrees, ops, &j.cur)
 		<-scaleSem
 		close(j.done)
 	}()
@@ -448,12 +488,33 @@ func flushScale(c *Config) {
 	for _, j := range scaleJobs {
 		openSide(c)
 		hang := false
-		select {
-		case <-j.done:
-		case <-time.After(600 * time.Second):
-			j.obs, j.w = []Sx{T("o", T("hang"))}, &sworld{side: &sideBuf{}}
-			hang = true
+		tick := time.NewTicker(50 * time.Millisecond)
+	wait:
+		for k := 0; ; k++ {
+			select {
+			case <-j.done:
+				break wait
+			case <-tick.C:
+				st := j.start.Load()
+				if st != 0 && time.Since(time.Unix(0, st)) > j.limit() {
+					hang = true
+				}
+				if k%20 == 19 {
+					var ms runtime.MemStats
+					runtime.ReadMemStats(&ms)
+					if ms.HeapAlloc > 16<<30 {
+						hang = true
+					}
+				}
+				if hang {
+					// an operation does not terminate (or eats all memory): report it and stop - the
+					// runaway goroutine cannot be killed
+					j.obs, j.w = []Sx{T("o", T("hang", I(int(j.cur.Load()))))}, &sworld{side: &sideBuf{}}
+					break wait
+				}
+			}
 		}
+		tick.Stop()
 		sops := make([]Sx, len(j.ops))
 		for i, o := range j.ops {
 			sops[i] = o.sx()
